@@ -276,6 +276,63 @@ def check_result(case, which, all_any):
     return bad
 
 
+
+# ------------------------------------------------------------------ response-map keys (Status.v)
+STATUS_HDR = "Require Import OPC.Uni OPC.gen.GenStatus OPC.Status.\nFrom Coq Require Import NArith ZArith List. Import ListNotations. Open Scope N_scope.\n"
+KEY_POOL = ["200", "201", "404", "418", "451", "500", "511", "default", "2XX", "4xx", "5XX", "299", "600", "99", "1000", "0200", " 200", "200 ", "\t404\n", "+200", "-200", "2_00", "2__00", "_200",
+            "200_", "2 00", "20O", "0x1f4", "2e2", "200.0", "", " ", "+", "٢٠٠", "２００", "200\u00a0", "\u2003404", "1_0_0", "00000204", "4O4", "4\u00d74"]
+
+
+def status_keys(run, tier):
+    rng = random.Random(run.rng.randrange(1 << 30))
+    keys = list(KEY_POOL)
+    for _ in range(40 if tier == "quick" else 600):
+        alphabet = "0123456789" * 3 + "_+- \tXx"
+        keys.append("".join(rng.choice(alphabet) for _ in range(rng.randint(1, 5))))
+    keys = list(dict.fromkeys(keys))
+    paths = {}
+    for i, k in enumerate(keys):
+        paths[f"/k{i}"] = {"get": OPS.op(f"key_op_{i}", responses={k: {"description": "d"}})}
+    doc = OPS.doc(paths)
+    data, config = impl.parse_doc(doc)
+    if not hasattr(data, "endpoint_collections_by_tag"):
+        run.violation("harness-or-generator", {"label": "status-keys", "error": repr(data)[:600], "doc": doc})
+        return 0, 0
+    seen = {}
+    for col in data.endpoint_collections_by_tag.values():
+        for ep in col.endpoints:
+            seen[ep.name] = ("ok", [int(r.status_code) for r in ep.responses], [str(e.detail) for e in ep.errors])
+        for e in col.parse_errors:
+            pass
+    terms, meta = [], []
+    for i, k in enumerate(keys):
+        got = seen.get(f"key_op_{i}")
+        if got is None:
+            obs = None      # the whole operation was dropped: not what the model describes
+        else:
+            _, sts, errs = got
+            obs = ("status", sts[0]) if len(sts) == 1 else ("rejected", errs) if not sts else ("several", sts)
+        run.note_case({"response_key": k, "observed": obs}, nontrivial=True, kind="status-key")
+        if obs is None or obs[0] == "several":
+            run.violation("oracle", {"label": "status-keys", "doc": {"openapi": "3.1.0", "info": doc["info"], "paths": {f"/k{i}": paths[f"/k{i}"]}}, "key": k, "observed": obs,
+                                     "note": "an operation whose only peculiarity is its response-map key was dropped / produced several statuses"})
+            continue
+        if obs[0] == "rejected" and not any(k in e for e in obs[1]):
+            run.violation("oracle", {"label": "status-keys", "doc": {"openapi": "3.1.0", "info": doc["info"], "paths": {f"/k{i}": paths[f"/k{i}"]}}, "key": k, "diagnostics": obs[1],
+                                     "note": "a response-map key that is not a status was omitted without a diagnostic naming it"})
+        cobs = f"(KStatus {obs[1]}%Z)" if obs[0] == "status" else "KRejected"
+        terms.append(f"match status_of_key {cstr(k)} with KOutOfModel => true | r => keyres_eqb r {cobs} end")
+        meta.append((k, obs))
+    bad = run_cases(STATUS_HDR, terms, shard=400) if terms else []
+    for i in bad[:6]:
+        k, obs = meta[i]
+        run.violation("correspondence", {"label": "status-keys", "key": k, "impl": obs, "model": coq_eval(STATUS_HDR, f"status_of_key {cstr(k)}")[-200:],
+                                         "doc": {"openapi": "3.1.0", "info": doc["info"], "paths": {"/k": {"get": OPS.op("key_op", responses={k: {"description": "d"}})}}},
+                                         "note": "Endpoint._add_responses no longer treats this response-map key like Status.status_of_key"})
+    run.extra["status_keys_compared"] = len(terms)
+    return len(terms), len(bad)
+
+
 def run(run, tier, replay=None):
     rng = run.rng
     docs = [(l, d, None) for l, d in OPS.atlas_response_docs()] + [(l, d, None) for l, d in OPS.atlas_body_docs()] + OPS.atlas_override_docs()
@@ -329,6 +386,10 @@ def run(run, tier, replay=None):
     bad = set(run_cases(hdr, terms, shard=250))
     run.extra["response_plans_compared"] = len(pterms)
     run.corr = {"cases": len(terms) + len(pterms), "mismatches": len(bad) + len(pbad), "what": "response_from_data decisions == Parse.response_plan; generated _parse_response(client, response) (parsed value / None / UnexpectedStatus / other exception) == Endpoint.parse on the endpoint abstracted from the implementation's parse"}
+    if not replay or any(v.get("label") == "status-keys" for v in rp["violations"]):
+        sk = status_keys(run, tier)
+        run.corr["cases"] += sk[0]; run.corr["mismatches"] += sk[1]
+        run.corr["what"] += "; response-map keys through Endpoint._add_responses == Status.status_of_key"
     for i in sorted(bad)[:8]:
         di, c = meta[i]
         mv = coq_eval(hdr, f"parse O{di} T{di} 40 {c['cep']} {'true' if c['flag'] else 'false'} {c['h']}")
